@@ -55,6 +55,8 @@ type World struct {
 	quiet     bool // suppress output (used by replays for C18)
 	hashes    []string
 	responses []string
+	simCtx    sdk.Context // the dropped branch shared by chained SIM steps
+	simActive bool
 }
 
 // ---------- tracing store service ----------
@@ -423,10 +425,17 @@ type txResult struct {
 // runMsg executes one message the way baseapp does: on a branch of the committed state that is written back only when the
 // handler succeeds.  With discard set the branch is dropped whatever the outcome (simulation / CheckTx, or an early
 // message of a transaction whose later message fails).
-func (w *World) runMsg(plan string, discard bool, call func(ctx context.Context) (string, error)) (res txResult) {
+func (w *World) runMsg(plan string, discard bool, chain bool, call func(ctx context.Context) (string, error)) (res txResult) {
 	w.plan, w.callIdx, w.calls, w.writes = plan, 0, nil, nil
 	ctx := w.ctx()
 	cctx, write := ctx.CacheContext()
+	if discard && chain && w.simActive {
+		// the messages of one transaction (or one simulation) share a branch: this one sees what the previous ones wrote
+		cctx = w.simCtx
+	}
+	if !discard {
+		w.simActive = false
+	}
 	cctx = cctx.WithEventManager(sdk.NewEventManager())
 	w.tracing = true
 	func() {
@@ -443,6 +452,10 @@ func (w *World) runMsg(plan string, discard bool, call func(ctx context.Context)
 		res.class, res.resp = "ok", resp
 	}()
 	w.tracing = false
+	if discard {
+		// the branch lives on for a chained successor only while every message on it succeeded
+		w.simCtx, w.simActive = cctx, res.class == "ok"
+	}
 	if res.class == "ok" && !discard {
 		write()
 		for _, e := range cctx.EventManager().Events() {
